@@ -232,9 +232,14 @@ def check_dispatch(c, f, loop):
     aliases = [k_ for k_, v_ in aliases_of(f).single_assign.items() if norm(v_) == 'responses[index]']
     R = 'responses[index]'
 
+    # (and a local bound once to the spawn's string types, `text_types = child.allowed_string_types`: nothing in run() re-binds that attribute)
+    st_aliases = [k_ for k_, v_ in aliases_of(f).single_assign.items() if norm(v_) == 'child.allowed_string_types']
+
     def eqv(text):
         for al_ in aliases:
             text = _re.sub(r'(?<![\w.])%s(?![\w])' % _re.escape(al_), R, text)
+        for al_ in st_aliases:
+            text = _re.sub(r'(?<![\w.])%s(?![\w])' % _re.escape(al_), 'child.allowed_string_types', text)
         return text
 
     def conds(n):
